@@ -394,7 +394,30 @@ func Main() {
 		fmt.Fprintln(os.Stderr, "-out DIR required")
 		os.Exit(2)
 	}
-	c := mk()
+	RunComponent(mk(), seed, n, out, opsIn)
+}
+
+// RunFromEnv runs a component configured by the environment (VERIF_SEED, VERIF_N,
+// VERIF_OUT, VERIF_OPS). It is the entry point for harnesses that have to live in a
+// `_test.go` file (in-package access, testing/synctest): the test function builds the
+// component and calls RunFromEnv; tools/hv then diffs the files exactly as for a binary.
+// It returns false when VERIF_OUT is not set (the test should then t.Skip()).
+func RunFromEnv(c Component) bool {
+	out := os.Getenv("VERIF_OUT")
+	if out == "" {
+		return false
+	}
+	var seed uint64 = 1
+	n := 1000
+	fmt.Sscan(os.Getenv("VERIF_SEED"), &seed)
+	fmt.Sscan(os.Getenv("VERIF_N"), &n)
+	RunComponent(c, seed, n, out, os.Getenv("VERIF_OPS"))
+	return true
+}
+
+// RunComponent generates (or reads from opsIn) operation lines, runs each on the
+// implementation and writes ops/mops/impl/oracle/stats into dir out.
+func RunComponent(c Component, seed uint64, n int, out, opsIn string) {
 	e := NewEmitter(out)
 	runOne := func(op string, tags ...string) {
 		var res Result
